@@ -1484,3 +1484,77 @@ Module LegsEx.
                        | _ => true end) tr = true.
   Proof. vm_compute. repeat split. Qed.
 End LegsEx.
+
+(* ================================================================== *)
+(* C01d: a sync of the model on a converged state sends nothing        *)
+(* ================================================================== *)
+(* the attachments are settled: every live observed attachment is still desired, and for every desired
+   attachment the strategy's decision is "nothing to do" (it is there and applying it changes nothing, or the
+   strategy is OnDelete, or it is being deleted) *)
+Definition children_settled (cc : ccfg) (parent : json) (observed desired : umap) : Prop :=
+  (forall av kd os kc key o,
+      In (av, kd, os) observed -> lookup_kind cc av kd = Some kc -> In (key, o) os ->
+      is_deleting o = true \/
+      olookup key (match ufind_group av kd desired with Some d => d | None => [] end) <> None) /\
+  (forall av kd ds kc key d,
+      In (av, kd, ds) desired -> lookup_kind cc av kd = Some kc -> In (key, d) ds ->
+      request_of_action kc d (child_decision cc kc parent
+                                (olookup key (match ufind_group av kd observed with Some o => o | None => [] end)) d) = None).
+
+Definition no_call (cl : call) : Prop := False.
+
+Lemma manage_children_settled cc parent observed desired :
+  ssa cc = false -> children_settled cc parent observed desired ->
+  all_calls no_call (manage_children cc parent observed desired).
+Proof.
+  intros Hssa [Hobs Hdes]. unfold manage_children. apply all_calls_bind.
+  - apply all_calls_foldM. intros failed [[av kd] os] Hin.
+    destruct (lookup_kind cc av kd) as [kc|] eqn:El; [|apply AC_ret].
+    apply all_calls_bind; [|intros; apply AC_ret].
+    eapply all_calls_weaken; [|apply C06_undesired_deleted_background].
+    intros cl (key & o & Ho & Hdel & Hlk & _). exfalso.
+    destruct (Hobs av kd os kc key o Hin El Ho) as [H | H]; [congruence|contradiction].
+  - intros f1. apply all_calls_foldM. intros failed [[av kd] ds] Hin.
+    destruct (lookup_kind cc av kd) as [kc|] eqn:El; [|apply AC_ret].
+    apply all_calls_bind; [|intros; apply AC_ret].
+    eapply all_calls_weaken; [|apply C06_update_children_sound; exact Hssa].
+    intros cl (key & d & Hd & Hreq). exfalso.
+    rewrite (Hdes av kd ds kc key d Hin El Hd) in Hreq. discriminate.
+Qed.
+
+(* the whole phase after the hook: the answer asks nothing of the target (resp_is_noop) and the
+   attachments are settled: no request at all, and the sync reports success or a plain error, never a write *)
+Theorem C01d_converged_sync_is_silent :
+  forall (c : dcfg) (rl : drule) (parent st : json) (observed : umap) (r : dresp) (desired0 : umap),
+    status_map parent = Some st ->
+    wf_json st = true ->
+    resp_is_noop c parent r = true ->
+    desired_map (dr_attachments r) [] = Some desired0 ->
+    children_settled (ccfg_of c) parent observed (stamp_all c desired0) ->
+    all_calls no_call (finish_d c rl parent observed r).
+Proof.
+  intros c rl parent st observed r d0 Hst Hwf Hnoop Hd0 Hset.
+  rewrite (C16_unchanged_only_attachments c rl parent st observed r Hst Hwf Hnoop).
+  unfold finish_attachments. rewrite Hd0.
+  apply all_calls_bind; [|intros; apply AC_ret].
+  destruct (negb (is_deleting parent) || should_finalize_d c parent); [|apply AC_ret].
+  apply manage_children_settled; [reflexivity|exact Hset].
+Qed.
+
+(* hence, for every answer function, running it adds nothing to the history *)
+Lemma all_calls_no_call_run {R} (p : prog R) (e : env) h : all_calls no_call p -> fst (run p e h) = h.
+Proof. intros H. revert h. induction H as [r|cl k Hc _ _]; intros h; [reflexivity|destruct Hc]. Qed.
+
+Theorem C01d_converged_sync_trace :
+  forall (c : dcfg) (rl : drule) (parent st : json) (observed : umap) (r : dresp) (desired0 : umap) (e : env) (h : hist),
+    status_map parent = Some st ->
+    wf_json st = true ->
+    resp_is_noop c parent r = true ->
+    desired_map (dr_attachments r) [] = Some desired0 ->
+    children_settled (ccfg_of c) parent observed (stamp_all c desired0) ->
+    fst (run (finish_d c rl parent observed r) e h) = h.
+Proof.
+  intros. apply all_calls_no_call_run. eapply C01d_converged_sync_is_silent; eauto.
+Qed.
+Print Assumptions C01d_converged_sync_is_silent.
+Print Assumptions C01d_converged_sync_trace.
